@@ -578,3 +578,28 @@ def quota_measures_the_json_text(chk, ctx):
                            message="StartExecution accepts an input of exactly 262144 characters (it counts the text); the first state's output check re-serialises the value with "
                                    "', ' / ': ' separators and \\uXXXX escapes and fails the execution with States.DataLimitExceeded: values exactly at the limit are not accepted")
     chk.floor("C16.R7", n, 6, "enforcement points of the data quota")
+
+
+# ---------------------------------------------------------------------------------------------------------------------
+# C19.R9 / C03.R15 (D76, open): the id under which dispatch retains a delivery (and which becomes the event id, the correlation id of task requests
+# and the default name of child executions) is never None: only publish() assigns message ids, a start event published by an external client the
+# documented low-level way has none.
+def retained_delivery_has_an_id(chk, ctx, rule):
+    ed = ctx.mod("event_dispatcher")
+    f = ed.func("EventDispatcher.dispatch")
+    stores = [s for s in body_nodes(f) if isinstance(s, ast.Assign) and any(isinstance(t, ast.Subscript) and norm(t.value) == "self.unacknowledged_messages" for t in s.targets)]
+    chk.floor(rule, len(stores), 1, "stores into unacknowledged_messages in dispatch")
+    for s in stores:
+        t = [t for t in s.targets if isinstance(t, ast.Subscript)][0]
+        key = t.slice
+        names = {x.id for x in ast.walk(key) if isinstance(x, ast.Name)} | ({norm(key)} if not isinstance(key, ast.Name) else set())
+        srcs = [d.value for n_ in names for d in name_defs(f, n_) if isinstance(d, ast.Assign)] or [key]
+        defaulted = any(isinstance(e, ast.BoolOp) and isinstance(e.op, ast.Or) for e in srcs) or any(isinstance(e, ast.IfExp) for e in srcs)
+        tested = any(isinstance(c, (ast.Compare, ast.UnaryOp)) and any(isinstance(x, ast.Name) and x.id in names for x in ast.walk(c)) and
+                     (isinstance(c, ast.UnaryOp) and isinstance(c.op, ast.Not) or any(isinstance(k, ast.Constant) and k.value is None for k in ast.walk(c)))
+                     for i in body_nodes(f) if isinstance(i, ast.If) for c in ast.walk(i.test)) or \
+                 any(isinstance(c, (ast.Compare, ast.UnaryOp)) and "message_id" in norm(c) and ("None" in norm(c) or norm(c).startswith("not ")) for i in body_nodes(f) if isinstance(i, ast.If) for c in [i.test])
+        chk.ob(rule, "dispatch never retains a delivery under the key None", defaulted or tested, " / ".join(norm(e) for e in srcs),
+               key="EventDispatcher.dispatch | the delivery is retained under `%s`, which is None for a message without a message id" % " / ".join(norm(e) for e in srcs), where=ed.line(s),
+               message="all id-less in-flight events share the key None: acknowledging one acknowledges another's delivery, the later ones are never acknowledged; task requests go out "
+                       "without a correlation id (the reply consumer raises on None.endswith) and a terminal first state is never acknowledged (`if id != None`)")
